@@ -14,6 +14,7 @@ import Lemmas.VrfRtcDefs
 import Lemmas.VrfRtcIdx
 import Lemmas.VrfRtcVrf
 import Lemmas.VrfRtcView
+import Lemmas.VrfRtcMgr
 namespace C17
 open VrfRtc
 
@@ -51,6 +52,22 @@ theorem vrf_ce_step (t : Tbl) (vr : Vrf) (v : LView) (p : VPath) (wd : Bool)
     CEViewOK (t.update p wd) vr
       (v.apply (ceOnTableChange vr (t.dest p.nlri) ((t.update p wd).dest p.nlri))) :=
   ce_table_step t vr v p wd h hf hinj hv
+
+/-! ### the memberships this speaker originates for its VRFs -/
+
+/-- After any sequence of VRF adds, VRF deletes and memberships received from neighbours for the same
+    NLRI (whatever their preference, i.e. wherever the local path stands in its destination), this
+    speaker originates a membership for an RT iff some configured VRF imports it. -/
+theorem vrf_local_memberships (ops : List MOp) (h : RecvOK ops) (k : Nat) :
+    scanLocal ((Mgr.run ops).rtc k) = true ↔ ∃ v, v ∈ (Mgr.run ops).vrfs ∧ k ∈ v.imports :=
+  local_memberships_eq ops h k
+
+/-- A VRF delete withdraws exactly the import targets of the deleted VRF that no remaining VRF imports. -/
+theorem vrf_delete_withdraws (ops : List MOp) (h : RecvOK ops) (name : Nat) (v : Vrf)
+    (hv : v ∈ (Mgr.run ops).vrfs) (hn : v.name = name) (k : Nat) :
+    k ∈ ((Mgr.run ops).delVrf name).2 ↔
+      (k ∈ v.imports ∧ ∀ w, w ∈ ((Mgr.run ops).delVrf name).1.vrfs → k ∉ w.imports) :=
+  delVrf_withdraws ops h name v hv hn k
 
 /-! ### the membership structure -/
 
@@ -184,6 +201,12 @@ example : (rtcStep sys1.t (sys1.s.add ⟨Y, 65000, 0⟩) false ⟨X, 65000, 0⟩
 example : (rtcStep sys1.t sys1.s false ⟨X, 65000, 0⟩ true).2 = [Msg.wd (5, 0)] := by decide
 example : (rtcStep sys1.t sys1.s false ⟨X, 65001, 0⟩ true).2 = [] :=
   rtc_minimal_unchanged _ _ _ _ _ (by decide)
+/-- the local membership is the runner-up behind a neighbour's; deleting the only VRF withdraws it -/
+def blue : Vrf := { name := 2, rd := 2, label := 17, imports := [X, Y], exports := [] }
+def mops : List MOp := [.add red, .recv X ⟨3, 200⟩ false, .add blue, .recv Y ⟨4, 50⟩ false]
+theorem mops_ok : RecvOK mops := by simp [mops, RecvOK]
+example : ((Mgr.run mops).rtc X).map (·.src) = [3, 0] ∧ ((Mgr.run mops).rtc Y).map (·.src) = [0, 4] := by decide
+example : ((Mgr.run mops).delVrf 1).2 = [Xn] ∧ ((Mgr.run (mops ++ [.del 1])).delVrf 2).2 = [X, Y] := by decide
 end Examples
 
 end C17
